@@ -165,7 +165,10 @@ def faulty_call(me, T, task, fault, fn_name, rng):
                 if fault == "bad-ref-label":
                     rl = list(rl); rl[rng.randrange(len(rl))] = bad
                 else:
-                    el = list(el); el[rng.randrange(len(el))] = bad
+                    # an estimated interval that overlaps the reference's span (what lies outside is cropped before
+                    # any label is looked at, and is not claimed)
+                    inside = [i for i in range(len(ei)) if min(ei[i, 1], ri.max()) > max(ei[i, 0], ri.min())]
+                    el = list(el); el[rng.choice(inside)] = bad
                 return outcome(fn, ri, rl, ei, el)
             if fault == "bad-ref-label":
                 a[rng.randrange(n)] = bad
@@ -222,6 +225,8 @@ def faulty_call(me, T, task, fault, fn_name, rng):
         elif fault == "time-2d":
             rt = rt.reshape(-1, 1)
         elif fault == "time-unsorted":
+            if len(et) < 2:
+                et, ef = rt.copy(), [x.copy() for x in rf]
             et = et[::-1].copy()
         return outcome(fn, rt, rf, et, ef)
     if task in ("transcription", "transcription_velocity"):
@@ -380,6 +385,8 @@ def run(tier, seed):
                     oc, msg = outcome(f, args, dict(kw))
                     if oc != "ok":
                         tag = row["shape"] + "/raised-" + oc
+                        if task == "beat" and len(args[0]) > 1 and np.unique(args[0]).size == 1:
+                            tag = "all-reference-beats-coincide/raised-" + oc
                         rep.violation(name, tag, {"task": task, "shape": row["shape"], "kwargs": kw, "message": msg,
                                                   "args": json.loads(json.dumps(args, default=lambda o: o.tolist() if hasattr(o, "tolist") else str(o)))})
                     ev.case((name, row["shape"], k), nontrivial=True)
